@@ -73,7 +73,7 @@ func (e *protoExec) op(op string) string {
 		return i, i >= 0 && i < e.n
 	}
 	switch f[0] {
-	case "p.newterm", "p.lead", "p.elect", "p.electm", "p.add", "p.write", "p.racewrite", "p.restart", "p.cut":
+	case "p.newterm", "p.lead", "p.elect", "p.electm", "p.add", "p.write", "p.racewrite", "p.restart", "p.crash", "p.trunc", "p.cut":
 		// the model talks about settled states: everything deliverable has been delivered
 		if !e.c.WaitSettled(8 * time.Second) {
 			e.unrel = true
@@ -228,6 +228,20 @@ func (e *protoExec) op(op string) string {
 			e.healed = true
 		}
 		return mark("ok")
+	case "p.trunc":
+		i, ok := node(f[1])
+		if !ok {
+			return mark("err:no-such-node")
+		}
+		return mark(e.c.Truncate(i, int64(atoi(f[2])), int64(atoi(f[3]))))
+	case "p.crash":
+		if i, ok := node(f[1]); ok {
+			if err := e.c.Crash(i); err != nil {
+				e.unrel = true
+			}
+			e.healed = true
+		}
+		return mark("ok")
 	case "p.restart":
 		if i, ok := node(f[1]); ok {
 			if err := e.c.Restart(i); err != nil {
@@ -326,10 +340,21 @@ func genProtoCase(rng *rand.Rand, adversarial bool) []string {
 			g.elect(rng.Intn(g.n))
 		case r == 15:
 			i := rng.Intn(g.n)
-			g.ops = append(g.ops, fmt.Sprintf("p.restart %d", i), "p.settle")
+			if rng.Intn(2) == 0 {
+				g.ops = append(g.ops, fmt.Sprintf("p.crash %d", i), "p.settle")
+			} else {
+				g.ops = append(g.ops, fmt.Sprintf("p.restart %d", i), "p.settle")
+			}
 		case r == 16 && adversarial:
 			// a late / duplicate / stale coordinator request
-			switch rng.Intn(3) {
+			switch rng.Intn(4) {
+			case 3:
+				// a Truncate request delivered again after the follower went on
+				tgt := rng.Intn(g.n)
+				if tgt == g.leader {
+					tgt = (tgt + 1) % g.n // the leader sends truncations, it never receives one of its own term
+				}
+				g.ops = append(g.ops, "p.settle", fmt.Sprintf("p.trunc %d %d %d", tgt, g.term, rng.Intn(3)-1), "p.settle", "p.state")
 			case 0:
 				g.ops = append(g.ops, fmt.Sprintf("p.newterm %d %d", rng.Intn(g.n), g.term-rng.Intn(2)))
 			case 1:
@@ -646,6 +671,12 @@ func (C03) Nontrivial(ops []string, outs []string) bool {
 // genProtoDirected adds the situations the single properties are about to a random script.
 func genProtoDirected(rng *rand.Rand, which string, i int) []string {
 	ops := genProtoCase(rng, i%3 == 0)
+	if (which == "C03" || which == "C04") && i%5 == 2 {
+		// a deposed leader with an uncommitted tail comes back while the others follow a newer term
+		return []string{"p.init n=3", "p.elect 0 1", fmt.Sprintf("p.write 0 %d", 10+i), "p.settle", "p.cut 0", fmt.Sprintf("p.write 0 %d", 100+i), fmt.Sprintf("p.write 0 %d", 200+i),
+			"p.elect 1 2", fmt.Sprintf("p.write 1 %d", 300+i), "p.settle", "p.state", "p.heal 0", "p.settle", "p.state", fmt.Sprintf("p.write 1 %d", 400+i), "p.settle", "p.state",
+			"p.elect 2 3", "p.settle", "p.state", "p.read 2"}
+	}
 	switch which {
 	case "C04":
 		// a client write racing with the fencing of its leader (the leader is cut off, so the outcome for the
@@ -701,8 +732,11 @@ func renumberTerms(ops []string) []string {
 		case "p.racewrite":
 			t++
 			f[3] = fmt.Sprint(t)
-		case "p.newterm", "p.lead":
+		case "p.newterm":
 			f[2] = fmt.Sprint(t)
+		case "p.lead":
+			// a stale BecomeLeader: the coordinator sends one BecomeLeader per term, to one node
+			f[2] = fmt.Sprint(t - 1)
 		case "p.add":
 			f[2] = fmt.Sprint(t)
 		}
